@@ -161,7 +161,8 @@ class LGen(solvecheck.Gen):
                 # the size bounded by, or tied to, a small random field (with only a loose literal bound next to it): the list
                 # has to be grown to what that field allows
                 ru = [i for i, f in enumerate(fs) if f["rand"] and not f["s"] and not f.get("enums") and 2 <= f["w"] <= 3]
-                if ru and r.random() < 0.35:
+                # (not next to a sum / product: the region of F70, exercised by its witness)
+                if ru and r.random() < 0.35 and '"sum"' not in json.dumps(stmts) and '"product"' not in json.dumps(stmts):
                     stmts.insert(0, {"k": "expr", "e": B("le", {"k": "size", "l": li}, I(r.randint(6, 8)))})
                     stmts.insert(1, {"k": "expr", "e": B(r.choice(["le", "le", "eq", "lt"]), {"k": "size", "l": li}, F(r.choice(ru)))})
                 else:
@@ -255,7 +256,7 @@ def requests_for(LL, S, scn, recs):
         req = {"op": "l.call", "fields": fields, "lists": lists, "tops": tops, "rec": rr, "enumLimit": 13, "order": order,
                "implFinal": after_flat if rec["outcome"] == "ok" else None, "implHoles": holes}
         spec = {"op": "l.spec", "fields": [dict(f, val=rec["after_s"][i]) for i, f in enumerate(scn["fields"])],
-                "lists": [{"name": l["name"], "w": l["w"], "s": l["s"], "rand": l["rand"], "vals": rec["exposed"][li]["iter"]}
+                "lists": [{"name": l["name"], "w": l["w"], "s": l["s"], "rand": l["rand"], "vals": rec["exposed"][li]["iter"] if isinstance(rec["exposed"][li]["iter"], list) else []}
                           for li, l in enumerate(scn["lists"])], "tops": tops}
         out.append({"k": k, "req": req, "spec": spec, "obs": obs, "after_flat": after_flat, "holes": holes, "n_els": n_els})
     return out
@@ -302,6 +303,18 @@ def _worker(args):
         for k, rec in enumerate(recs):
             for li, x in enumerate(rec["exposed"]):
                 cnt("exposure_reads")
+                if isinstance(x["iter"], str):
+                    # a list of random size that the call did not grow to the size it then solved.  Known where the size is
+                    # tied to a random field whose range depends on the sum / product of a random-size list (F70: the ranges
+                    # are inferred before any list is grown, over the empty sum); anything else is reported as it is
+                    js = json.dumps(scn["blocks"])
+                    f70 = scn["lists"][li]["randsz"] and any(l2["randsz"] for l2 in scn["lists"]) and \
+                        ('"k": "sum"' in js or '"k": "product"' in js) and _size_vs_field(scn, li)
+                    res["orc"].append({"signature": "F70:randsz-list-not-grown-to-solved-size:range-through-sum-of-randsz-list" if f70
+                                       else "list-size-exceeds-elements", "case": dict(case, ops=scn["ops"][:k + 1]),
+                                       "observed": dict(x, list=scn["lists"][li]["name"]),
+                                       "required": "len(), size, indexing and iteration agree"})
+                    continue
                 if not (x["len"] == x["size"] == len(x["iter"]) and x["index"] == x["iter"]):
                     res["orc"].append({"signature": "list-access-paths-disagree", "case": dict(case, ops=scn["ops"][:k + 1]),
                                        "observed": dict(x, list=scn["lists"][li]["name"]),
@@ -402,7 +415,9 @@ def _worker(args):
             res["corr"].extend(corr)
             res["orc"].extend(orc)
             # ---- the property, evaluated on exactly the exposed lists
-            if rec["outcome"] == "ok":
+            if rec["outcome"] == "ok" and any(isinstance(x["iter"], str) for x in rec["exposed"]):
+                pass        # a list could not be read at all (reported above): there is no exposed list to judge the constraints on
+            elif rec["outcome"] == "ok":
                 if "__err__" in sp:
                     res["corr"].append({"what": "list-spec-error", "case": ccase, "model": sp["__err__"], "impl": None})
                 elif sp["specFail"]:
@@ -457,6 +472,22 @@ def _uses_randsz(scn, s):
     return any(l["randsz"] and ('"l": %d' % li) in js for li, l in enumerate(scn["lists"]))
 
 
+def _size_vs_field(scn, li):
+    """is the size of list li compared with a field somewhere in the blocks?"""
+    def walk(x):
+        if isinstance(x, dict):
+            if x.get("k") == "bin" and isinstance(x.get("l"), dict) and isinstance(x.get("r"), dict):
+                a, b = x["l"], x["r"]
+                if (a.get("k") == "size" and a.get("l") == li and b.get("k") == "fld") or \
+                        (b.get("k") == "size" and b.get("l") == li and a.get("k") == "fld"):
+                    return True
+            return any(walk(v) for v in x.values())
+        if isinstance(x, list):
+            return any(walk(v) for v in x)
+        return False
+    return walk(scn["blocks"])
+
+
 def _w(lists, stmts, fields=None, ops=None):
     return {"fields": fields or [{"name": "f0", "w": 2, "s": False, "rand": True, "val": 0, "enums": None}], "lists": lists,
             "blocks": [{"name": "c0", "stmts": stmts}], "ops": ops or [{"op": "randomize", "seed": 7}]}
@@ -480,6 +511,14 @@ WITNESSES = {
                            {"k": "expr", "e": B("le", SZ, I(3))}, {"k": "expr", "e": B("ne", SZ, I(3))}]),
     # neighbour relation under the guard 'i < size-1' on a random-size list: the guard depends on a random field, is not
     # folded, and the expansion indexes one past the last element
+    # the ranges are inferred before any list is grown: sum(l0) is then the empty sum, so f0 <= 0 and with it l1.size <= 0 is
+    # inferred and l1 is not grown; l0 is grown to 3, the solve picks f0 up to the sum of three elements, and l1.size == f0
+    # comes back with no element behind it
+    "F70": _w([{"name": "l0", "w": 4, "s": False, "rand": True, "randsz": True, "init": []},
+               {"name": "l1", "w": 4, "s": False, "rand": True, "randsz": True, "init": []}],
+              [{"k": "expr", "e": B("le", {"k": "size", "l": 1}, I(6))}, {"k": "expr", "e": B("eq", {"k": "size", "l": 1}, F(0))},
+               {"k": "expr", "e": B("ge", {"k": "sum", "l": 0}, F(0))}, {"k": "expr", "e": B("eq", {"k": "size", "l": 0}, I(3))}],
+              fields=[{"name": "f0", "w": 3, "s": False, "rand": True, "val": 0, "enums": None}], ops=[{"op": "randomize", "seed": 8}]),
     "F47": _w([_rsz(3)], [{"k": "expr", "e": B("eq", SZ, I(3))},
                           {"k": "foreach", "l": 0, "it": False, "idx": True, "body": [
                               {"k": "if", "c": B("lt", {"k": "idx"}, B("sub", SZ, I(1))),
